@@ -66,6 +66,9 @@ pub struct Cli {
     /// call (which completes no message) is queued in `pending`
     pub frag: Option<u64>,
     pub pending: Vec<Value>,
+    /// hold mode: inputs are collected (encoded, not delivered) and delivered by flush_held() in ONE input call
+    pub hold: bool,
+    pub held: Vec<(Value, Vec<u8>)>,
 }
 
 pub fn packets_of(rs: &[ClientSessionResult]) -> Vec<&rml_rtmp::chunk_io::Packet> {
@@ -95,7 +98,7 @@ impl Cli {
         let (s, rs) = ClientSession::new(cfg).expect("client session");
         let mut peer = Peer::new();
         let results = results_json(&mut peer, &rs);
-        let mut c = Cli { s, peer, clock, txns: vec![], sids: vec![], wire, clock_mode: 0, frag: None, pending: vec![] };
+        let mut c = Cli { s, peer, clock, txns: vec![], sids: vec![], wire, clock_mode: 0, frag: None, pending: vec![], hold: false, held: vec![] };
         c.wire_record(&rs, "new");
         let ev = json!({"ev":"New","cfg":cfgj,"res":"ok","results":results,"probe":probe_json(&c.s),"clk":w(clock as u32)});
         (c, ev)
@@ -111,7 +114,33 @@ impl Cli {
             }
         }
     }
+    /// deliver everything held in one input call; the event lists the items (i.m = "batch")
+    pub fn flush_held(&mut self) -> Option<Value> {
+        if self.held.is_empty() { return None; }
+        let held: Vec<(Value, Vec<u8>)> = self.held.drain(..).collect();
+        if held.len() == 1 {
+            let (d, b) = held.into_iter().next().unwrap();
+            return Some(self.input_whole(d, &b));
+        }
+        let mut all: Vec<u8> = Vec::new();
+        let mut items: Vec<Value> = Vec::new();
+        for (d, b) in held { all.extend_from_slice(&b); items.push(d); }
+        Some(self.input_whole(json!({"m":"batch","items":items}), &all))
+    }
+
     pub fn input(&mut self, desc: Value, bytes: &[u8]) -> Value {
+        if self.hold {
+            let m = desc["m"].as_str().unwrap_or("").to_string();
+            let malformed = (m == "setDataFrame" && desc["shape"] != "ok") || ((m == "closeStream" || m == "deleteStream") && desc["arg"] != "num")
+                || (m == "onStatus" && desc["code"] == "malformed") || (m == "onMetaData" && desc["shape"] != "ok");
+            if ["winack", "frag"].contains(&m.as_str()) || malformed {
+                // needs ids the session hands out, announces a window or is malformed: delivered alone, after what is held
+                if let Some(e) = self.flush_held() { self.pending.push(e); }
+                return self.input_whole(desc, bytes);
+            }
+            self.held.push((desc, bytes.to_vec()));
+            return Value::Null;
+        }
         if let Some(x) = self.frag.take() {
             if bytes.len() >= 2 {
                 let cut = 1 + (x % (bytes.len() as u64 - 1)) as usize;
@@ -426,22 +455,42 @@ pub fn generate(kind: &str, tier: &str, seed: u64, shard: u64, nshards: u64, pat
         let mut prev_probe = probe_json(&c.s);
         for _ in 0..n {
             c.tick(&mut rng);
-            // every fourth input arrives in two calls, the first of which completes no message
-            c.frag = if rng.chance(1, 4) { Some(rng.next()) } else { None };
-            let e = random_step(&mut rng, &mut c, &padlens);
-            c.frag = None;
-            let mut frag_failed = false;
-            for p in c.pending.drain(..) {
-                frag_failed |= p["res"] != "ok";
-                prev_probe = p["probe"].clone();
-                t.emit(&p);
-                steps += 1;
+            // one step in five is a BURST: the next two to four inbound messages are delivered by ONE input call (application
+            // calls made meanwhile happen before it); otherwise every fourth input arrives in two calls, the first of which
+            // completes no message
+            let mut evs: Vec<Value> = Vec::new();
+            if rng.chance(1, 5) {
+                c.hold = true;
+                c.frag = None;
+                for _ in 0..rng.range(2, 4) {
+                    let e = random_step(&mut rng, &mut c, &padlens);
+                    evs.extend(c.pending.drain(..));
+                    if !e.is_null() { evs.push(e); }
+                }
+                c.hold = false;
+                if let Some(e) = c.flush_held() { evs.push(e); }
+            } else {
+                c.frag = if rng.chance(1, 4) { Some(rng.next()) } else { None };
+                let e = random_step(&mut rng, &mut c, &padlens);
+                c.frag = None;
+                evs.extend(c.pending.drain(..));
+                evs.push(e);
             }
-            let dead = e["res"].as_str().map(|x| x.starts_with("panic") || (e["ev"] == "In" && x.starts_with("err") && lost_ack(&prev_probe, &e))).unwrap_or(false);
-            prev_probe = e["probe"].clone();
-            t.emit(&e);
-            steps += 1;
-            if dead || frag_failed {
+            // a panic poisons the session; an Err from handle_input may have discarded packets that were already serialized
+            // (finding K1, judged under C18), after which the peer decoder of this harness can no longer follow; a failing
+            // fragment or burst leaves bytes behind in the session's deserializer: end the run in all these cases
+            let mut dead = false;
+            for e in evs {
+                let res = e["res"].as_str().unwrap_or("").to_string();
+                let is_in = e["ev"] == "In";
+                let special = is_in && (e["i"]["m"] == "frag" || e["i"]["m"] == "batch");
+                dead |= res.starts_with("panic") || (is_in && res.starts_with("err") && (special || lost_ack(&prev_probe, &e)));
+                prev_probe = e["probe"].clone();
+                t.emit(&e);
+                steps += 1;
+                if dead { break; }
+            }
+            if dead {
                 break;
             }
         }
